@@ -138,3 +138,122 @@ Example C09_full_statement_instance :
   | _, _ => False
   end.
 Proof. vm_compute. repeat split; tauto. Qed.
+
+(* ================================================================================================
+   4. Part (A), the structural half - PROVED for comment-free programs (Proofs/FormatStruct*.v)
+
+   For every abstract program p of Spec/Grammar.v without comments (all comment slots empty: [comment_free]) whose
+   tokens are valid ([aprog_valid]: identifiers well-formed and no keywords, literals below 2^32), every token vector
+   with the kinds of p, and every indentation unit made of blanks or tabs:
+     C09_structure : the printer run on the mandated tree [expected p] returns exactly the spellings of the program's
+                     tokens ([show_kind], Display for TokenType), in order, separated only by whitespace gaps that are
+                     admissible in the sense of Proofs/RenderProofs.v ([gaps_ok]: a gap between two tokens is empty only
+                     where the two spellings do not merge - the instances of the glue table above);
+     C09_spellings : what Display prints for a token is a lexeme of the SAME kind and value; it is the canonical
+                     spelling, except that a one-digit hexadecimal literal is zero padded ({:#04X});
+     C09_tokens    : hence the printed text lexes to the program's tokens - same kinds, same values, no lexical error;
+     C09_document  : from a document: a text that lexes to the tokens of such a program (and [prog_ok]: the dangling-else
+                     shape, needed for the parser round trip C04) is formatted to a text with the same token kinds.
+   Of [C09_full_statement] this proves the token half (`code_kinds toks' = code_kinds toks`) for all documents that are
+   layouts of valid comment-free programs; open: programs with comments (the printer then emits comment lines in the
+   covered gaps and drops the others, C10) and "syntactically_valid out" as a statement about [program_clean]. *)
+From Spl Require Import Spec.Grammar Proofs.LexerProofs Proofs.RenderProofs Proofs.PipelineText
+  Proofs.FormatStructText Proofs.FormatStructProg.
+From Spl Require Spec.LexSpec.
+
+Example C09_comment_free_unfold :
+  (forall p, comment_free p = forallb (fun k => negb (match k with Comment _ => true | _ => false end)) (flatten p))
+  /\ (forall p, aprog_valid p = forallb valid_kind (flatten p))
+  /\ (forall k, nice k = valid_kind k && negb (match k with Comment _ => true | _ => false end)).
+Proof. repeat split; reflexivity. Qed.
+
+Theorem C09_structure : forall p toks f,
+  (ind_sym f = 32 \/ ind_sym f = 9) -> comment_free p = true -> aprog_valid p = true ->
+  map tk toks = flatten p ++ [Eof] ->
+  exists txt gaps,
+    fmt_program f (expected p) toks = FOk txt /\
+    txt = weave gaps (map show_kind (flatten p)) /\
+    gaps_ok (flatten p) gaps /\
+    Forall (fun g => forallb is_ws g = true) gaps /\
+    hd [] gaps = [] /\ (flatten p <> [] -> last gaps [] = [10]).
+Proof. exact structure. Qed.
+Print Assumptions C09_structure.
+
+Theorem C09_spellings : forall k, nice k = true ->
+  LexSpec.Lexeme k (show_kind k) /\
+  (show_kind k = spelling k \/
+   exists v a, k = HexT (IntOk v) /\ spelling k = [48; 120; a] /\ show_kind k = [48; 120; 48; a]).
+Proof. intros k H. split; [apply show_lexeme; exact H | apply show_vs_spelling; exact H]. Qed.
+Print Assumptions C09_spellings.
+
+Theorem C09_tokens : forall p toks f txt,
+  (ind_sym f = 32 \/ ind_sym f = 9) -> comment_free p = true -> aprog_valid p = true ->
+  map tk toks = flatten p ++ [Eof] ->
+  fmt_program f (expected p) toks = FOk txt ->
+  exists toks', lex txt = Some toks' /\ map tk toks' = flatten p ++ [Eof] /\ Forall (fun t => terr t = []) toks'.
+Proof. exact tokens. Qed.
+Print Assumptions C09_tokens.
+
+Theorem C09_document : forall p doc toks ins ts,
+  prog_ok p = true -> comment_free p = true -> aprog_valid p = true ->
+  lex doc = Some toks -> map tk toks = flatten p ++ [Eof] ->
+  exists txt toks',
+    formatted_text doc ins ts = Done txt /\
+    lex txt = Some toks' /\ map tk toks' = map tk toks /\
+    format_request txt ins ts = Done None.
+Proof. exact format_document. Qed.
+Print Assumptions C09_document.
+
+(* proc main(a: int, ref b: array [0x0a] of int) { var x: int;
+     if (a < - -1) x := 007 * (b[0] + 'c'); else if (a = 2) {} else main(a, b); }   - without any comment *)
+Definition c09_v (s : string) : avar := AName [] (str s).
+Definition c09_f (f : afac) : acmp := CAdd (AMul (MFac f)).
+Definition c09_int : atype := TName [] (str "int").
+Definition c09_prog : aprog :=
+  {| a_decls :=
+       [DProc [] [] (str "main") []
+          (Some (PVal [] (str "a") [] c09_int,
+                 [([], PRef [] [] (str "b") [] (TArr [] [] [] (LHex 10) [] [] c09_int))])) [] []
+          [{| v_c1 := []; v_c2 := []; v_x := str "x"; v_c3 := []; v_t := c09_int; v_c4 := [] |}]
+          (SCons
+             (SIfE [] [] (CBin (AMul (MFac (FVar (c09_v "a")))) [] CLt (AMul (MFac (FNeg [] (FNeg [] (FLit [] (LDec 1))))))) []
+                (SAsg (c09_v "x") []
+                   (CAdd (AMul (MBin (MFac (FLit [] (LDec 7))) [] MTimes
+                      (FPar [] (CAdd (ABin (AMul (MFac (FVar (AIndex (c09_v "b") [] (c09_f (FLit [] (LDec 0))) []))))
+                                           [] APlus (MFac (FLit [] (LChr 99))))) [])))) [])
+                []
+                (SIfE [] [] (CBin (AMul (MFac (FVar (c09_v "a")))) [] CEq (AMul (MFac (FLit [] (LDec 2))))) []
+                   (SBlk [] SNil []) []
+                   (SCal [] (str "main") [] (Some (c09_f (FVar (c09_v "a")), [([], c09_f (FVar (c09_v "b")))])) [] [])))
+             SNil) []];
+     a_ceof := [] |}.
+Definition c09_mk (k : kind) : token := {| tk := k; ts := 0; te := 0; terr := [] |}.
+Definition c09_out : text :=
+  str "proc main(a: int, ref b: array [0x0A] of int) {" ++ [10] ++ str "  var x: int;" ++ [10; 10]
+  ++ str "  if (a < --1)" ++ [10] ++ str "    x := 7 * (b[0] + 'c');" ++ [10]
+  ++ str "  else if (a = 2) {}" ++ [10] ++ str "  else" ++ [10] ++ str "    main(a, b);" ++ [10] ++ str "}" ++ [10].
+
+(* the hypotheses hold for the example, and the conclusions are what the theorems say *)
+Example C09_structure_ex :
+  comment_free c09_prog = true /\ aprog_valid c09_prog = true /\ prog_ok c09_prog = true
+  /\ length (flatten c09_prog) = 62%nat
+  /\ fmt_program (options_of true 2) (expected c09_prog) (map c09_mk (flatten c09_prog ++ [Eof])) = FOk c09_out
+  /\ match lex c09_out with
+     | Some toks' => map tk toks' = flatten c09_prog ++ [Eof]
+     | None => False
+     end
+  /\ In (HexT (IntOk 10)) (flatten c09_prog) /\ show_kind (HexT (IntOk 10)) = str "0x0A" /\ spelling (HexT (IntOk 10)) = str "0xA"
+  /\ comment_free {| a_decls := []; a_ceof := [str " c"] |} = false.
+Proof. vm_compute. repeat split; try reflexivity. repeat (first [left; reflexivity | right]). Qed.
+
+(* the instance of C09_tokens obtained THROUGH the theorem *)
+Example C09_tokens_ex :
+  exists toks', lex c09_out = Some toks' /\ map tk toks' = flatten c09_prog ++ [Eof] /\ Forall (fun t => terr t = []) toks'.
+Proof.
+  apply (C09_tokens c09_prog (map c09_mk (flatten c09_prog ++ [Eof])) (options_of true 2) c09_out).
+  - left. reflexivity.
+  - vm_compute. reflexivity.
+  - vm_compute. reflexivity.
+  - rewrite map_map. apply map_id.
+  - vm_compute. reflexivity.
+Qed.
